@@ -15,7 +15,9 @@ LEVEL_TEXT = ("Three complete families are rendered from a reference model and p
               "1..3 (thorough 4) tables over 6 tables, with and without schema, with and without ';'. The five attributes the property names are compared per column."
               " Family C is also run behind a comment line that holds a lone apostrophe; every default form meets every type form."
               " Defect hunt: keyword-named referenced tables (REFERENCES tag(x) / comment / order / options / type), signed decimal / double-parenthesised / prefixed-literal defaults (known findings), multi-line tables without ';'."
-              " Wave 6: the mixed-terminator script (an unterminated statement ended by a complete one-line ';'-terminated statement).")
+              " Wave 6: the mixed-terminator script (an unterminated statement ended by a complete one-line ';'-terminated statement)."
+              " Wave 7 (scale sweeps, family S): every column count 4..40 (thorough ..96) with the 12 shapes cycling from every offset, every table count 4..24 (..60) per script with and without ';', "
+              "identifiers of every length 1..130 (..200) as column / table / schema name, string defaults of every length 0..140 (..400), integer defaults and sizes of 1..60 digits, every precision 1..39 (..65) x 6 scales.")
 LEVEL_NOTE = ("Small-scope bounds: <=5 options, <=5 columns, <=4 tables; type and default alphabets are fixed lists. The reference model is "
               "written from the property statement, not from the code.")
 RULE = ("case = a table/script rendered from the reference model; expected columns known by construction; non-trivial = at least one "
@@ -75,7 +77,9 @@ LAYOUTS = {"line": ("(", ", ", ")"), "glued": ("(", ",", ")"), "multi": (" (\n  
 
 def bounds(tier):
     return {"options_per_column": 5 if tier == "thorough" else 3, "columns": 5 if tier == "thorough" else 3, "tables_per_script": 4 if tier == "thorough" else 3,
-            "types": len(TYPES), "defaults": len(DEFAULTS), "shapes": len(SH)}
+            "types": len(TYPES), "defaults": len(DEFAULTS), "shapes": len(SH),
+            "scale_columns": 96 if tier == "thorough" else 40, "scale_tables": 60 if tier == "thorough" else 24, "scale_name_length": 200 if tier == "thorough" else 130,
+            "scale_literal_length": 400 if tier == "thorough" else 140, "scale_digits": 60}
 
 
 def gen_cases(tier):
@@ -137,7 +141,88 @@ def gen_cases(tier):
                     if lay == "line":
                         # the same script behind a comment line that holds a lone apostrophe (quote-aware pre-processing must not lose its bearings)
                         cases.append({"fam": "C", "tabs": list(tabs), "schema": sch, "layout": "glued", "apos": True})
+    cases += scale_cases(deep)
     return cases
+
+
+# family S (scale sweeps): one dimension is swept COMPLETELY over a long range while the others cycle - sizes a small scope never reaches
+# (two-digit positions, long names / literals / numbers, many tables), so that a defect that needs a threshold to manifest is enumerated
+def nm(n, k=0):
+    """an identifier of exactly n characters (letters, digits, underscores), different for different k"""
+    base = "c%d_" % k + "abcdefghij_klmnopqrst_uvwxyz0123456789" * 8
+    return base[:n] if n >= 2 else "abcdefghijklmnopqrstuvwxyz"[k % 26]
+
+
+def scale_cases(deep):
+    cases = []
+    maxc, maxt, maxn, maxl = (96, 60, 200, 400) if deep else (40, 24, 130, 140)
+    for n in range(4, maxc + 1):
+        for off in (range(len(SH)) if (deep or n <= 16) else (0, 5, 9)):
+            cases.append({"fam": "S", "dim": "cols", "n": n, "off": off, "layout": ("line", "multi", "glued", "lead")[(n + off) % 4]})
+    for n in range(4, maxt + 1):
+        for off in range(len(TABS)):
+            cases.append({"fam": "S", "dim": "tabs", "n": n, "off": off, "schema": bool((n + off) % 2), "nosemi": (False, True, "first")[(n + off) % 3]})
+    for n in range(1, maxn + 1):
+        for where in ("col", "table", "schema", "all"):
+            cases.append({"fam": "S", "dim": "name", "n": n, "where": where})
+    for n in range(0, maxl + 1):
+        cases.append({"fam": "S", "dim": "strdefault", "n": n})
+        if 1 <= n <= 60:
+            cases.append({"fam": "S", "dim": "intdefault", "n": n})
+            cases.append({"fam": "S", "dim": "size", "n": n})
+    for p in range(1, 66 if deep else 40):
+        for sc in (0, 1, 9, 10, 11, 30):
+            if sc <= p:
+                cases.append({"fam": "S", "dim": "prec", "p": p, "s": sc})
+    return cases
+
+
+def build_scale(case):
+    d = case["dim"]
+    plain = dict(type="int", size=None, nullable=True, default=None)
+    if d == "cols":
+        shp, seen_pk = [], False
+        for i in range(case["n"]):
+            s = (i + case["off"]) % len(SH)
+            if s == 4:
+                s = 4 if not seen_pk else 0
+                seen_pk = True
+            shp.append(s)
+        cols = ["c%d %s" % (i, SH[s][0]) for i, s in enumerate(shp)]
+        return table_text("s1.t", cols, case["layout"]), [("s1", "t", [dict(SH[s][1], name="c%d" % i) for i, s in enumerate(shp)])]
+    if d == "tabs":
+        out, exps = [], []
+        for k in range(case["n"]):
+            ti = (k + case["off"]) % len(TABS)
+            cols = ["c%d %s" % (i, SH[s][0]) for i, s in enumerate(TABS[ti])]
+            out.append(table_text(("sc%d." % k if case["schema"] else "") + "t%d" % k, cols, "line"))
+            exps.append(("sc%d" % k if case["schema"] else None, "t%d" % k, [dict(SH[s][1], name="c%d" % i) for i, s in enumerate(TABS[ti])]))
+        return "\n".join(out), exps
+    if d == "name":
+        n, w = case["n"], case["where"]
+        col = nm(n, 1) if w in ("col", "all") else "c1"
+        tab = nm(n, 2) if w in ("table", "all") else "t"
+        sch = nm(n, 3) if w in ("schema", "all") else "s1"
+        cols = ["c0 int", col + " varchar(20) NOT NULL DEFAULT 'x'", "c2 int"]
+        exp = [dict(plain, name="c0"), dict(name=col, type="varchar", size=20, nullable=False, default="'x'"), dict(plain, name="c2")]
+        return table_text(sch + "." + tab, cols, "line"), [(sch, tab, exp)]
+    if d == "strdefault":
+        lit = "'" + ("Lorem ipsum dolor sit amet consectetur adipiscing elit sed do " * 8)[:case["n"]].rstrip() + "'"
+        cols = ["c0 int", "c1 varchar(500) DEFAULT " + lit + " NOT NULL", "c2 int"]
+        return table_text("s1.t", cols, "line"), [("s1", "t", [dict(plain, name="c0"), dict(name="c1", type="varchar", size=500, nullable=False, default=lit), dict(plain, name="c2")])]
+    if d == "intdefault":
+        v = ("1234567890" * 7)[:case["n"]]
+        cols = ["c0 int", "c1 numeric DEFAULT " + v, "c2 int"]
+        return table_text("s1.t", cols, "line"), [("s1", "t", [dict(plain, name="c0"), dict(name="c1", type="numeric", size=None, nullable=True, default=int(v)), dict(plain, name="c2")])]
+    if d == "size":
+        v = ("9081726354" * 7)[:case["n"]]
+        cols = ["c0 int", "c1 varchar(%s) NOT NULL" % v, "c2 int"]
+        return table_text("s1.t", cols, "line"), [("s1", "t", [dict(plain, name="c0"), dict(name="c1", type="varchar", size=int(v), nullable=False, default=None), dict(plain, name="c2")])]
+    if d == "prec":
+        cols = ["c0 int", "c1 decimal(%d,%d) DEFAULT 0" % (case["p"], case["s"]), "c2 numeric(%d, %d)" % (case["p"], case["s"])]
+        return table_text("s1.t", cols, "line"), [("s1", "t", [dict(plain, name="c0"), dict(name="c1", type="decimal", size=[case["p"], case["s"]], nullable=True, default=0),
+                                                                 dict(name="c2", type="numeric", size=[case["p"], case["s"]], nullable=True, default=None)])]
+    raise ValueError(d)
 
 
 def table_text(name, coltexts, layout):
@@ -147,6 +232,8 @@ def table_text(name, coltexts, layout):
 
 def build(case):
     """-> (ddl, [(schema, table, [expected column dicts])])"""
+    if case["fam"] == "S":
+        return build_scale(case)
     if case["fam"] == "D":
         a = "code char(3) " + render_opts(case["opts"])
         b = case["sib"] + " varchar(10) NULL"
